@@ -107,10 +107,11 @@ fn report(c: &C12Case) -> CaseReport {
         {
             let mut g = ctl.lock().unwrap();
             g.fault_at = faults.clone();
-            g.fault_kind = KINDS[kind_idx % KINDS.len()];
+            g.fault_kind = KINDS[(kind_idx + c.pair_seed as usize) % KINDS.len()];
+            g.fault_side_effects = (kind_idx + (c.pair_seed >> 8) as usize) % 2 == 1;
             g.faults_enabled = true;
         }
-        let mut trace = vec![format!("faults at read-side call(s) {:?} of {} ({:?})", faults, n, KINDS[kind_idx % KINDS.len()])];
+        let mut trace = vec![format!("faults at read-side call(s) {:?} of {} ({:?}, side effects {})", faults, n, KINDS[(kind_idx + c.pair_seed as usize) % KINDS.len()], (kind_idx + (c.pair_seed >> 8) as usize) % 2 == 1)];
         rep.evaluations += 1;
         match run_read_script(&image, &helper, c.max_buf, c.strict, &c.script, &ctl, &mut trace, c.no_retry_mask) {
             Ok(s) => {
